@@ -1,6 +1,8 @@
 import Dcg.Model.Determinism
 import Dcg.Proofs.Determinism
 import Dcg.Gen.SetSites
+import Dcg.Proofs.Write
+import Dcg.Gen.GenerateSteps
 /-
 C08 — output is a function of input and options only.
 
@@ -92,6 +94,52 @@ list as a write to some OTHER object; the set of shared classes is the reviewed 
 theorem memoised_values_never_mutated :
     memoValueWrites.all (fun w => (reviewedMemoWrites.lookup (w.1, w.2.1, w.2.2.1)).isSome) = true ∧
     memoClasses.map (·.1) = knownSharedClasses := by decide +kernel
+
+/-! ### The working directory -/
+
+/-- Every call in the source that reads or sets the process's working directory (`Path.cwd()`, `os.getcwd()`, `os.chdir()`,
+`abspath`/`realpath`, `.absolute()`, `.resolve()`) or starts a child process that inherits it is on the reviewed list: it runs
+inside `with chdir(output)`, it locates the input, it is the save/restore of `chdir` itself, or it belongs to the CLI layer. The
+three sites of the formatting stage (`CodeFormatter.__init__`'s default settings path and the two `ruff` child processes) are
+present and reviewed as running inside `with chdir(output)`. -/
+theorem cwd_reads_reviewed :
+    cwdSites.all (fun s => (reviewedCwdSites.lookup s).isSome) = true ∧
+    expectedFormatterCwdSites.all (fun e => cwdSites.contains e && reviewedCwdSites.lookup e == some .insideChdirOutput) = true := by
+  decide +kernel
+
+/-- The reviewed shape behind the tag `insideChdirOutput`, decided on the effect sequence of `generate()` regenerated from its
+`ast` (Gen/GenerateSteps, shared with C20): the only `with chdir(…)` region is entered as `chdir(output)`, `parser.parse()` —
+rendering AND formatting — is the one step inside it, `parse()` is handed no settings path, and `chdir` switches to
+`path if path.is_dir() else path.parent`. -/
+theorem formatting_runs_in_output_directory :
+    Dcg.Model.Write.parseInsideChdirOutput Dcg.Gen.GenerateSteps.pre Dcg.Gen.GenerateSteps.chdirSome
+      Dcg.Gen.GenerateSteps.parseCallArguments = true := by decide
+
+/-- Consequence in the model of `generate()` (Dcg/Model/Write, any environment, any file system): when `parser.parse()` starts —
+every step before it having succeeded — the working directory is the directory `chdir` switched to, which is determined by
+`output` alone; two callers in two different directories `orig₁`, `orig₂` format in the same directory. (With `output=None`
+nothing is written and `chdir(None)` does not switch: `stdout_run_formats_in_callers_directory`.) -/
+theorem formatting_directory_independent_of_callers_cwd (env : Dcg.Model.Write.Env)
+    (hc : env.chdirSteps = Dcg.Gen.GenerateSteps.chdirSome) (files : List (Dcg.Model.Write.Path × Dcg.Model.Write.Content))
+    (i : Nat) (orig₁ orig₂ target : Dcg.Model.Write.Path) :
+    let atParse := Dcg.Model.Write.exec env (fun _ => false) none i false ⟨files, .orig⟩
+      (Dcg.Model.Write.stepsBefore "parser.parse" Dcg.Gen.GenerateSteps.pre)
+    atParse.st.cwd.denote orig₁ target = target ∧ atParse.st.cwd.denote orig₂ target = target := by
+  intro atParse
+  have h : atParse = .done ⟨files, .target⟩ := by
+    show Dcg.Model.Write.exec env _ none i false _ _ = _
+    rw [Dcg.Proofs.Write.exec_noFault_track env _ (by decide), hc]
+    have : Dcg.Model.Write.cwdTrack Dcg.Gen.GenerateSteps.chdirSome .orig
+        (Dcg.Model.Write.stepsBefore "parser.parse" Dcg.Gen.GenerateSteps.pre) = .target := by decide
+    simp only [this]
+  rw [h]
+  exact ⟨rfl, rfl⟩
+
+/-- the boundary of the statement above: a run without an output path (`output=None`, text to stdout) does not switch, the
+formatters then see the caller's directory — no file is written in that case -/
+theorem stdout_run_formats_in_callers_directory :
+    Dcg.Model.Write.cwdTrack Dcg.Gen.GenerateSteps.chdirNone .orig
+      (Dcg.Model.Write.stepsBefore "parser.parse" Dcg.Gen.GenerateSteps.pre) = .orig := by decide
 
 /-! ### Universal lemmas behind the tags -/
 
